@@ -81,6 +81,10 @@ struct Replica {
     /// `max` was assigned at least once (it is no longer the bounding-box bound)
     max_updated: bool,
     iters: usize,
+    /// largest `weight_left` / `sum - weight_left` at a step after which the search went on (the
+    /// direction test ran on them); statistics of the narrow-weight-type stream
+    max_wl_cont: i64,
+    max_wr_cont: i64,
 }
 
 /// Sequential transliteration of `par_rcb_split` (the search loop only) on the coordinates of the
@@ -90,6 +94,7 @@ fn replica_split(xs: &[f32], ws: &[i64], sum: i64, tolerance: f64, mut min: f32,
     let mut prev_count_left = usize::MAX;
     let mut max_updated = false;
     let mut iters = 0usize;
+    let (mut max_wl_cont, mut max_wr_cont) = (0i64, 0i64);
     loop {
         iters += 1;
         if iters > MAX_SPLIT_ITERS {
@@ -123,6 +128,8 @@ fn replica_split(xs: &[f32], ws: &[i64], sum: i64, tolerance: f64, mut min: f32,
                     fmax: max,
                     max_updated,
                     iters,
+                    max_wl_cont,
+                    max_wr_cont,
                 });
             }
             None => {
@@ -157,10 +164,14 @@ fn replica_split(xs: &[f32], ws: &[i64], sum: i64, tolerance: f64, mut min: f32,
                 fmax: max,
                 max_updated,
                 iters,
+                max_wl_cont,
+                max_wr_cont,
             });
         }
         prev_count_left = count_left;
         let weight_right = sum - weight_left;
+        max_wl_cont = max_wl_cont.max(weight_left);
+        max_wr_cont = max_wr_cont.max(weight_right);
         if weight_left < weight_right {
             min = split_target;
         } else {
@@ -571,6 +582,169 @@ fn api_rib(d: usize, iter: usize, tol: f64, threads: usize, ws: &[i64], xs: &[f6
     }
 }
 
+// ------------------------------------------------------------------ narrow integer weight types
+
+/// `wt_<type>` variants of `rcbvar` / `ribvar`: the same data with the weights in a narrower integer
+/// type the trait bounds of `RcbWeight` admit (C `int` weights arrive like this through the FFI), and
+/// the largest value of the type. The contract: every weight and the TOTAL fit the type – then no
+/// arithmetic of the search may leave the type's range (every partial sum is at most the total), the
+/// ids must be those of the `i64` run of the same data, which is judged node by node.
+const WT_TYPES: [(&str, i64); 6] = [
+    ("wt_i8", i8::MAX as i64),
+    ("wt_u8", u8::MAX as i64),
+    ("wt_i16", i16::MAX as i64),
+    ("wt_u16", u16::MAX as i64),
+    ("wt_i32", i32::MAX as i64),
+    ("wt_u32", u32::MAX as i64),
+];
+
+fn wt_max(var: &str) -> Option<i64> {
+    WT_TYPES.iter().find(|t| t.0 == var).map(|t| t.1)
+}
+
+fn typed_rcb<const D: usize, W>(iter: usize, tol: f64, threads: usize, ws: Vec<W>, xs: Vec<f64>) -> Caught<ApiOut>
+where
+    W: coupe::RcbWeight + 'static,
+{
+    catch_timeout(30, move || {
+        let points: Vec<PointND<D>> = to_points::<D>(&xs);
+        let mut ids = vec![0usize; ws.len()];
+        let r = with_pool(pool_size(threads), || {
+            coupe::Rcb { iter_count: iter, tolerance: tol }.partition(&mut ids, (points, ws))
+        });
+        r.map(|()| ids).map_err(|e| format!("{:?}", e))
+    })
+}
+
+macro_rules! typed_rib_fn {
+    ($name:ident, $d:literal) => {
+        /// 1-thread pool, as the plain Rib run (the frame is a parallel `f64` sum)
+        fn $name<W>(iter: usize, tol: f64, ws: Vec<W>, xs: Vec<f64>) -> Caught<ApiOut>
+        where
+            W: coupe::RcbWeight + 'static,
+        {
+            catch_timeout(30, move || {
+                let points = to_points::<$d>(&xs);
+                let mut ids = vec![0usize; ws.len()];
+                let r = with_pool(1, || {
+                    coupe::Rib { iter_count: iter, tolerance: tol }.partition(&mut ids, (&points[..], ws))
+                });
+                r.map(|()| ids).map_err(|e| format!("{:?}", e))
+            })
+        }
+    };
+}
+typed_rib_fn!(typed_rib_2, 2);
+typed_rib_fn!(typed_rib_3, 3);
+
+/// The ids of Rcb / Rib with the weights converted to the type of `var`. `None`: not applicable (a
+/// weight or the total does not fit the type, or a weight is negative: outside the contract).
+#[allow(clippy::too_many_arguments)]
+fn typed_ids(rib: bool, d: usize, var: &str, iter: usize, tol: f64, threads: usize, ws: &[i64], xs: &[f64]) -> Option<Caught<ApiOut>> {
+    let max = wt_max(var)?;
+    if ws.iter().any(|&w| w < 0 || w > max) || ws.iter().sum::<i64>() > max {
+        return None;
+    }
+    macro_rules! go {
+        ($t:ty) => {{
+            let w: Vec<$t> = ws.iter().map(|v| *v as $t).collect();
+            match (rib, d) {
+                (false, 2) => typed_rcb::<2, $t>(iter, tol, threads, w, xs.to_vec()),
+                (false, _) => typed_rcb::<3, $t>(iter, tol, threads, w, xs.to_vec()),
+                (true, 2) => typed_rib_2::<$t>(iter, tol, w, xs.to_vec()),
+                (true, _) => typed_rib_3::<$t>(iter, tol, w, xs.to_vec()),
+            }
+        }};
+    }
+    Some(match var {
+        "wt_i8" => go!(i8),
+        "wt_u8" => go!(u8),
+        "wt_i16" => go!(i16),
+        "wt_u16" => go!(u16),
+        "wt_i32" => go!(i32),
+        "wt_u32" => go!(u32),
+        _ => return None,
+    })
+}
+
+/// Runs the `wt_<type>` variant and compares it with the `i64` run (`base_ids`). `orig`: the points
+/// handed to the API; `pts`: the points Rcb works on (Rib: the rotated ones).
+#[allow(clippy::too_many_arguments)]
+fn narrow_verdict(
+    ctx: &mut Ctx,
+    rib: bool,
+    d: usize,
+    var: &str,
+    iter: usize,
+    tol: f64,
+    threads: usize,
+    ws: &[i64],
+    orig: &[f64],
+    pts: &[f64],
+    base_ids: &[usize],
+) -> Option<(String, String)> {
+    let algo = if rib { "rib" } else { "rcb" };
+    let ty = &var[3..];
+    let Some(max) = wt_max(var) else { return None };
+    let Some(res) = typed_ids(rib, d, var, iter, tol, threads, ws, orig) else {
+        ctx.count(&format!("narrow:{}_not_applicable", var));
+        return None;
+    };
+    ctx.count(&format!("narrow:{}@{}", var, algo));
+    let total: i64 = ws.iter().sum();
+    // where the case sits relative to the type's range (evidence of what the stream reaches)
+    if total == max {
+        ctx.count("narrow:total_is_type_max");
+    }
+    if 2 * total > max {
+        ctx.count("narrow:total_above_half_range");
+        if iter >= 1 {
+            let x0: Vec<f32> = pts.chunks_exact(d).map(|p| p[0] as f32).collect();
+            let lo = x0.iter().copied().fold(f32::INFINITY, f32::min);
+            let hi = x0.iter().copied().fold(f32::NEG_INFINITY, f32::max);
+            if let Some(r) = replica_split(&x0, ws, total, tol, lo, hi) {
+                if 2 * r.max_wl_cont > max {
+                    ctx.count("narrow:root_search_goes_on_with_left_above_half_range");
+                }
+                if 2 * r.max_wr_cont > max {
+                    ctx.count("narrow:root_search_goes_on_with_right_above_half_range");
+                }
+                if 2 * r.weight_left > max || 2 * (total - r.weight_left) > max {
+                    ctx.count("narrow:root_child_total_above_half_range");
+                }
+            }
+        }
+    }
+    let head = format!("weights as {} (every weight and the total {} fit: largest value {})", ty, total, max);
+    match res {
+        Caught::Ok(Ok(ids)) if ids == base_ids => None,
+        Caught::Ok(Ok(ids)) => {
+            let k = (0..ids.len().min(base_ids.len())).find(|&i| ids[i] != base_ids[i]);
+            let alone = match ids_only_unbalanced(d, iter, tol, ws, pts, &ids) {
+                Some(what) => format!("judged alone these ids are unbalanced ({})", what),
+                None => "judged alone these ids pass the balance oracle".to_string(),
+            };
+            Some((
+                format!("weight-type-dependent@{}", algo),
+                format!(
+                    "{}: other ids than the i64 run of the same data (first difference at point {:?}: {:?} vs {:?}); {}",
+                    head,
+                    k,
+                    k.map(|i| ids[i]),
+                    k.map(|i| base_ids[i]),
+                    alone
+                ),
+            ))
+        }
+        Caught::Ok(Err(e)) => Some((format!("weight-type-dependent@{}", algo), format!("{}: returns {}, the i64 run Ok", head, e))),
+        Caught::Panic(m) => Some((
+            format!("weight-type-panic@{}", algo),
+            format!("{}: panics although no partial sum can leave the type's range: {}; the i64 run of the same data returns normally", head, m),
+        )),
+        Caught::Hang => Some((format!("weight-type@{}:hang", algo), format!("{}: no return within 30 s; the i64 run returns", head))),
+    }
+}
+
 /// The frame hook in a 1-thread pool (parallel `f64` sums are only deterministic there): the
 /// points as Rib's inner Rcb sees them, flat and point-major. `Ok(None)`: no frame.
 fn frame(d: usize, xs: &[f64]) -> Caught<Option<Vec<f64>>> {
@@ -771,7 +945,7 @@ fn parse_op(op: &str) -> Option<Op> {
     let mut it = op.split_whitespace();
     let kind = it.next()?;
     match kind {
-        "rcb" | "rib" | "rcbvar" => {
+        "rcb" | "rib" | "rcbvar" | "ribvar" => {
             let d: usize = it.next()?.parse().ok()?;
             if d != 2 && d != 3 {
                 return None;
@@ -782,9 +956,10 @@ fn parse_op(op: &str) -> Option<Op> {
             }
             let tol = f64::from_bits(hex64(it.next())?);
             let threads: usize = it.next()?.parse().ok()?;
-            let var = if kind == "rcbvar" {
+            let var = if kind == "rcbvar" || kind == "ribvar" {
                 let v = it.next()?;
-                if !super::c03::VARIANTS.contains(&v) {
+                // `ribvar`: only the weight types (`wt_…`); `rcbvar`: those and the variants of C03
+                if wt_max(v).is_none() && (kind == "ribvar" || !super::c03::VARIANTS.contains(&v)) {
                     return None;
                 }
                 Some(v.to_string())
@@ -801,7 +976,7 @@ fn parse_op(op: &str) -> Option<Op> {
                 orig.push(f64::from_bits(hex64(it.next())?));
             }
             let mut rot = Vec::new();
-            if kind == "rib" {
+            if kind == "rib" || kind == "ribvar" {
                 for _ in 0..n * d {
                     rot.push(f64::from_bits(hex64(it.next())?));
                 }
@@ -809,7 +984,7 @@ fn parse_op(op: &str) -> Option<Op> {
             if it.next().is_some() {
                 return None;
             }
-            Some(Op::Tree { rib: kind == "rib", d, iter, tol, threads, var, ws, orig, rot })
+            Some(Op::Tree { rib: kind == "rib" || kind == "ribvar", d, iter, tol, threads, var, ws, orig, rot })
         }
         "split" => {
             let d: usize = it.next()?.parse().ok()?;
@@ -856,6 +1031,17 @@ fn format_tree_op(rib: bool, d: usize, iter: usize, tol: f64, threads: usize, ws
     if rib {
         push_f64s(&mut s, rot);
     }
+    s
+}
+
+/// `ribvar <D> <iter> <tol> <threads> <wt_type> <n> <w…> <orig…> <rot…>`: `rib` with the weight type
+fn format_ribvar_op(d: usize, iter: usize, tol: f64, threads: usize, var: &str, ws: &[i64], orig: &[f64], rot: &[f64]) -> String {
+    let mut s = format!("ribvar {} {} {:x} {} {} {}", d, iter, tol.to_bits(), threads, var, ws.len());
+    for w in ws {
+        write!(s, " {}", w).unwrap();
+    }
+    push_f64s(&mut s, orig);
+    push_f64s(&mut s, rot);
     s
 }
 
@@ -1072,7 +1258,13 @@ fn run_tree(ctx: &mut Ctx, op: &str, rib: bool, d: usize, iter: usize, tol: f64,
     // `rcbvar`: the same data through another weight type / calling context / zero sign must give the
     // same ids (so that what is judged below holds for every legal way to make the call)
     let mut extra: Vec<(String, String)> = Vec::new();
-    if let (Some(v), false) = (&var, rib) {
+    if let Some(v) = var.as_deref().filter(|v| wt_max(v).is_some()) {
+        // narrow integer weight types (Rcb and Rib): same ids as the i64 run, which is judged below
+        let worked_on = if rib { &rot } else { &orig };
+        if let Some(verdict) = narrow_verdict(ctx, rib, d, v, iter, tol, threads, &ws, &orig, worked_on, &ids) {
+            extra.push(verdict);
+        }
+    } else if let (Some(v), false) = (&var, rib) {
         let r = super::c03::variant_ids(d, v, iter, tol, threads, &ws, &orig);
         if let Some(verdict) = super::c03::variant_verdict(ctx, "rcb", v, Some(&ids), r) {
             extra.push(verdict);
@@ -1492,6 +1684,264 @@ pub fn generate(ctx: &mut Ctx) {
     // last, so that the streams above keep their cases
     gen_large(ctx);
     gen_special(ctx);
+    gen_narrow(ctx);
+}
+
+// ------------------------------------------------------------------ narrow weight types: generators
+
+const NARROW_WSHAPES: [&str; 7] = ["heavy_low", "heavy_high", "heavy_any", "equal_many", "random_scaled", "heavy_side", "two_heavy_low"];
+const NARROW_EXTRA_LAYOUTS: [&str; 3] = ["line", "skew_low", "skew_high"];
+const NARROW_LAYOUTS: usize = POINT_SHAPES.len() + NARROW_EXTRA_LAYOUTS.len();
+
+fn narrow_layout_name(layout: usize) -> &'static str {
+    if layout < POINT_SHAPES.len() {
+        POINT_SHAPES[layout]
+    } else {
+        NARROW_EXTRA_LAYOUTS[layout - POINT_SHAPES.len()]
+    }
+}
+
+/// The point shapes of the tree stream plus: the integers 0..n-1 in random order on the first axis;
+/// most points crowded at the low / the high end of the first axis (the first targets of the search
+/// then see most of the weight on one side).
+fn narrow_points(rng: &mut Rng, n: usize, d: usize, layout: usize) -> Vec<f64> {
+    if layout < POINT_SHAPES.len() {
+        return gen_points(rng, n, d, layout);
+    }
+    let mut xs = vec![0.0f64; n * d];
+    match layout - POINT_SHAPES.len() {
+        0 => {
+            let mut perm: Vec<usize> = (0..n).collect();
+            rng.shuffle(&mut perm);
+            for (i, p) in xs.chunks_exact_mut(d).enumerate() {
+                p[0] = perm[i] as f64;
+                for c in p.iter_mut().skip(1) {
+                    *c = rng.range(0, 7) as f64;
+                }
+            }
+        }
+        k => {
+            let e = 2 + rng.usize(5) as i32;
+            for p in xs.chunks_exact_mut(d) {
+                let u = unit(rng).powi(e);
+                p[0] = clean(if k == 1 { 100.0 * u } else { 100.0 - 100.0 * u });
+                for c in p.iter_mut().skip(1) {
+                    *c = clean(uniform(rng, -10.0, 10.0));
+                }
+            }
+        }
+    }
+    xs
+}
+
+/// Non-negative integers proportional to `raw` whose sum is `total` exactly (floor shares; what is
+/// left goes to the largest share).
+fn scale_to(raw: &[i64], total: i64) -> Vec<i64> {
+    let n = raw.len();
+    if n == 0 {
+        return Vec::new();
+    }
+    let s: i128 = raw.iter().map(|&r| r.max(0) as i128).sum();
+    if s == 0 {
+        let mut w = vec![0i64; n];
+        w[0] = total;
+        return w;
+    }
+    let mut w: Vec<i64> = raw.iter().map(|&r| ((r.max(0) as i128 * total as i128) / s) as i64).collect();
+    let rest = total - w.iter().sum::<i64>();
+    let k = (0..n).max_by_key(|&i| raw[i]).unwrap();
+    w[k] += rest;
+    w
+}
+
+/// `n >= 1` non-negative weights with sum `total` exactly; `key[i]` = first coordinate of point `i`.
+fn narrow_weights(rng: &mut Rng, n: usize, total: i64, shape: usize, key: &[f64]) -> Vec<i64> {
+    let mut order: Vec<usize> = (0..n).collect();
+    order.sort_by(|&a, &b| key[a].partial_cmp(&key[b]).unwrap_or(std::cmp::Ordering::Equal));
+    let q = (n / 4).max(1);
+    match shape {
+        0 | 1 | 2 => {
+            // one element heavier than half of the total: among the lowest / the highest coordinates / anywhere
+            let k = match shape {
+                0 => order[rng.usize(q)],
+                1 => order[n - 1 - rng.usize(q)],
+                _ => rng.usize(n),
+            };
+            let span = (total - total / 2 - 1).max(0);
+            let extra = if rng.chance(1, 2) { rng.range(0, span / 4) } else { rng.range(0, span) };
+            let h = if n == 1 { total } else { (total / 2 + 1 + extra).min(total) };
+            let raw: Vec<i64> = (0..n).map(|i| if i == k { 0 } else if rng.chance(1, 4) { 0 } else { rng.range(1, 100) }).collect();
+            let mut w = if n == 1 { vec![0] } else { scale_to(&raw, total - h) };
+            // `scale_to` may have put a remainder on index 0 when every raw share is 0: move it
+            if raw.iter().all(|&r| r == 0) && n > 1 {
+                w = vec![0; n];
+                w[(k + 1) % n] = total - h;
+            }
+            w[k] += h;
+            w
+        }
+        3 => {
+            // many equal elements (when n exceeds the total: `total` ones among zeros)
+            let mut w = vec![total / n as i64; n];
+            let mut idx: Vec<usize> = (0..n).collect();
+            rng.shuffle(&mut idx);
+            for &i in idx.iter().take((total % n as i64) as usize) {
+                w[i] += 1;
+            }
+            w
+        }
+        4 => {
+            let sparse = rng.chance(1, 4);
+            let raw: Vec<i64> = (0..n).map(|_| if sparse && rng.chance(3, 4) { 0 } else { rng.range(0, 1000) }).collect();
+            scale_to(&raw, total)
+        }
+        5 => {
+            let lo = key.iter().copied().fold(f64::INFINITY, f64::min);
+            let hi = key.iter().copied().fold(f64::NEG_INFINITY, f64::max);
+            let rev = rng.chance(1, 3);
+            let raw: Vec<i64> = key
+                .iter()
+                .map(|&x| {
+                    let mut t = if hi > lo { (x - lo) / (hi - lo) } else { 0.5 };
+                    if !rev {
+                        t = 1.0 - t;
+                    }
+                    (1.0 + 999.0 * t * t) as i64
+                })
+                .collect();
+            scale_to(&raw, total)
+        }
+        _ => {
+            // two heavy elements next to each other at the low end, together 60..90 % of the total
+            let mut raw: Vec<i64> = (0..n).map(|_| rng.range(0, 20)).collect();
+            let rest: i64 = raw.iter().sum::<i64>().max(1);
+            let share = rng.range(15, 45);
+            raw[order[0]] = rest * share / 10;
+            raw[order[1.min(n - 1)]] = rest * rng.range(15, 45) / 10;
+            scale_to(&raw, total)
+        }
+    }
+}
+
+/// A total for a type whose largest value is `max`: mostly in the upper half of the range.
+fn narrow_total(rng: &mut Rng, max: i64) -> i64 {
+    let half = max / 2;
+    match rng.usize(20) {
+        0..=4 => max,
+        5..=7 => max - rng.range(1, 3),
+        8..=16 => half + 1 + rng.range(0, max - half - 1),
+        17 => half + 1,
+        18 => half,
+        _ => rng.range(1, half),
+    }
+}
+
+#[allow(clippy::too_many_arguments)]
+fn narrow_case(ctx: &mut Ctx, ty: usize, n: usize, d: usize, layout: usize, wshape: usize, total: i64, iter: usize, tol: f64, threads: usize, want_rib: bool) {
+    let (var, max) = WT_TYPES[ty];
+    let xs = narrow_points(&mut ctx.rng, n, d, layout);
+    let key: Vec<f64> = xs.chunks_exact(d).map(|p| p[0]).collect();
+    let ws = narrow_weights(&mut ctx.rng, n, total, wshape, &key);
+    if ws.iter().sum::<i64>() != total || ws.iter().any(|&w| w < 0 || w > max) {
+        // generator bug: never hand such a case on as if it were inside the contract
+        ctx.count("narrow_generator_inconsistent");
+        return;
+    }
+    ctx.count(&format!("narrow_type_{}", &var[3..]));
+    ctx.count(&format!("narrow_wshape_{}", NARROW_WSHAPES[wshape]));
+    ctx.count(&format!("narrow_layout_{}", narrow_layout_name(layout)));
+    let mut rot: Option<Vec<f64>> = None;
+    if want_rib {
+        match frame(d, &xs) {
+            Caught::Ok(Some(f)) if f.len() == xs.len() && f.iter().all(|x| x.is_finite() && x.abs() <= 1e7) => {
+                if f.iter().any(|x| *x == 0.0 && x.is_sign_negative()) {
+                    ctx.count("rib_skipped_negative_zero");
+                } else {
+                    rot = Some(f);
+                }
+            }
+            _ => ctx.count("narrow_rib_skipped_no_usable_frame"),
+        }
+    }
+    let op = match &rot {
+        Some(r) => format_ribvar_op(d, iter, tol, threads, var, &ws, &xs, r),
+        None => format_var_op(d, iter, tol, threads, var, &ws, &xs),
+    };
+    run_op(ctx, &op);
+}
+
+/// NARROW INTEGER WEIGHT TYPES with totals in the upper half of the type's range: `rcbvar` / `ribvar`
+/// ops with the variants `wt_i8 … wt_u32`. The i64 run of the same data is judged node by node as
+/// usual; the run with the narrow type must return (no panic: every partial sum of the search is at
+/// most the total, which fits) and give the same ids.
+fn gen_narrow(ctx: &mut Ctx) {
+    ctx.notes.push(
+        "narrow-weight-type stream (`rcbvar`/`ribvar … wt_<type>`): weights as i8/u8/i16/u16/i32/u32 whose total is \
+         mostly in the upper half of the type's range (the type's largest value itself in a quarter of the cases); \
+         contract: every weight >= 0 and the total fit the type (otherwise counted `…_not_applicable`, not judged); \
+         the counters `narrow:root_search_goes_on_with_left|right_above_half_range` say how often a search step that is \
+         not the last one has more than half of the type's range on one side (where doubling a side weight, or \
+         adding the two sides in the wrong order, leaves the range although the total fits); signatures \
+         weight-type-panic@rcb|rib, weight-type-dependent@rcb|rib; i64/u64 totals beyond 2^62 are not generated \
+         (the oracle's own arithmetic is i64)"
+            .into(),
+    );
+    // systematic: every type x weight shape x (line, skew_low, skew_high) x (total = largest value, total just above half)
+    let mut k = 0usize;
+    for ty in 0..WT_TYPES.len() {
+        let max = WT_TYPES[ty].1;
+        for wshape in 0..NARROW_WSHAPES.len() {
+            for layout in POINT_SHAPES.len()..NARROW_LAYOUTS {
+                for t in 0..2 {
+                    let total = if t == 0 { max } else { max / 2 + 1 + ctx.rng.range(0, max / 4) };
+                    let tol = [0.0, 0.05][k % 2];
+                    ctx.count("narrow_systematic");
+                    narrow_case(ctx, ty, 8 + k % 5, 2 + (k / 4) % 2, layout, wshape, total, 1 + (k / 2) % 2, tol, 1, false);
+                    k += 1;
+                }
+            }
+        }
+    }
+    // random
+    for k in 0..ctx.budget(300, 15000) {
+        let ty = k % WT_TYPES.len();
+        let max = WT_TYPES[ty].1;
+        let n = match ctx.rng.usize(10) {
+            0..=2 => 2 + ctx.rng.usize(10),
+            3..=6 => 12 + ctx.rng.usize(60),
+            _ => 72 + ctx.rng.usize(400),
+        };
+        let d = 2 + ctx.rng.usize(2);
+        let layout = ctx.rng.usize(NARROW_LAYOUTS);
+        let wshape = ctx.rng.usize(NARROW_WSHAPES.len());
+        let total = narrow_total(&mut ctx.rng, max);
+        let iter = 1 + ctx.rng.usize(6);
+        let tol = gen_tol(&mut ctx.rng);
+        let threads = *ctx.rng.pick(&[1usize, 2, 4, 16]);
+        let want_rib = ctx.rng.chance(1, 5);
+        ctx.count("narrow_random");
+        narrow_case(ctx, ty, n, d, layout, wshape, total, iter, tol, threads, want_rib);
+    }
+    // large n: rayon splits the fold, the reduce adds two real partial weights in the narrow type
+    for k in 0..ctx.budget(2, 16) {
+        let ty = 2 + k % 4; // i16, u16, i32, u32
+        let (var, max) = WT_TYPES[ty];
+        let d = 2 + (k % 2);
+        let mut n = 8193 + ctx.rng.usize(6000);
+        while n % 4096 == 0 {
+            n += 1;
+        }
+        let xs = gen_large_points(&mut ctx.rng, n, d, 0);
+        let key: Vec<f64> = xs.chunks_exact(d).map(|p| p[0]).collect();
+        let total = if k % 2 == 0 { max } else { narrow_total(&mut ctx.rng, max) };
+        let ws = narrow_weights(&mut ctx.rng, n, total, [3usize, 4, 5, 0][(k / 2) % 4], &key);
+        if ws.iter().sum::<i64>() != total || ws.iter().any(|&w| w < 0 || w > max) {
+            ctx.count("narrow_generator_inconsistent");
+            continue;
+        }
+        ctx.count("narrow_large_n");
+        run_op(ctx, &format_var_op(d, 1 + k % 3, [0.0, 0.05, 0.01][k % 3], [4usize, 1, 16, 3][k % 4], var, &ws, &xs));
+    }
 }
 
 /// SPECIAL VALUES / PLUMBING / CONTEXT for the balance property: the weights decide the cut, so the
